@@ -218,3 +218,76 @@ SUBS = [
         n_thorough=2000,
     ),
 ]
+
+
+# ---- builder handles on generated programs
+
+
+def check_program_handles(case) -> list[Fail]:
+    import json
+
+    from hugr.hugr.node_port import OutPort
+
+    from vlib import refval
+    from vlib.props.c01 import run_program
+
+    r, fails = run_program(case)
+    if r is None:
+        raise InvalidCase("program does not build")
+    try:
+        doc = json.loads(r.hugr.to_json())
+    except Exception as e:  # noqa: BLE001
+        raise InvalidCase("does not serialize") from e
+    f: list[Fail] = []
+    detached = {id(b.hugr) for rid, b in r.builders.items() if getattr(b, "hugr", None) is not r.hugr}
+
+    def expect(handle, what):
+        nd = handle.to_node() if hasattr(handle, "to_node") else handle
+        if nd.idx >= len(doc["nodes"]):
+            return
+        want = len(refval.jsig(doc["nodes"][nd.idx])["outs"])
+        try:
+            got = list(handle)
+        except Exception as e:  # noqa: BLE001
+            f.append(Fail("builder-handle", f"{what}:iteration-raises-{type(e).__name__}", f"node {nd.idx} ({doc['nodes'][nd.idx]['op']}) with {want} outputs"))
+            return
+        if got != [OutPort(nd, i) for i in range(want)]:
+            f.append(Fail("builder-handle", f"{what}:wrong-outputs", f"node {nd.idx} ({doc['nodes'][nd.idx]['op']}): {len(got)} ports, signature has {want}"))
+
+    events = case["events"]
+    in_detached = set()
+    for i, ev in enumerate(events):
+        if ev["e"] == "detached":
+            in_detached.add(i)
+    # regions living in detached builders get other node indices after insertion: skip their handles
+    from vlib.props.c13 import structure
+
+    R, evr = structure(case)
+    for idx, handle, op in r.handles:
+        reg = events[idx].get("r")
+        if reg in R and R[reg]["tree"] != -1:
+            continue
+        k = op["k"] if isinstance(op, dict) else "?"
+        what = {"LoadConst": "load", "Call": "call", "inserted": "insert"}.get(k, "add_" + events[idx].get("mode", "op") if events[idx]["e"] == "op" else events[idx]["e"])
+        expect(handle, what)
+    for rid, b in r.builders.items():
+        if rid not in R or R[rid]["tree"] != -1 or rid == -1:
+            continue
+        kind = R[rid]["kind"]
+        if kind in ("nested", "loop", "cond", "if", "cfg") and hasattr(b, "parent_node"):
+            expect(b.parent_node, "container:" + kind)
+            expect(b, "builder:" + kind)
+    return f[:6]
+
+
+def _prog_strategy(tier):
+    from vlib import proggen
+
+    return proggen.programs(size=14 if tier == "quick" else 24, max_depth=2)
+
+
+SUBS.append(
+    Sub("builder-handles", check_program_handles, strategy=_prog_strategy, nontrivial=lambda c: "multi-output-op" in c.get("classes", []) or len(c["events"]) >= 6,
+        classes=lambda c: [x for x in c.get("classes", []) if x in ("multi-output-op", "insert", "call", "load-const", "nested-dfg", "cfg", "conditional", "tail-loop")], n_quick=250, n_thorough=1500,
+        sample_ok=lambda c: len(c["events"]) <= 10)
+)
